@@ -179,6 +179,8 @@ static void caseB(uint64_t i, vr::Ctx& ctx)
     s.streamSize   = streamSizes[i % 3];
     s.code         = gCodes[i % gCodes.size()];
     s.headers      = gHdrSets[i % gHdrSets.size()];
+    if ((i / 9) % 4 == 3)
+        s.headers.push_back(8); // a quarter of the programs: the handler announces a transfer coding of its own as well
     s.cookies      = gCookieSets[i % gCookieSets.size()];
     s.salt         = (i % 11 == 10) ? 100 + int(i / 11) % 3 : int(i % 5); // every 11th: binary payloads
     uint64_t steps = 0;
